@@ -29,9 +29,17 @@ def evaluate(d: Path) -> dict:
     assert sh(f"git -C /repo worktree add -q --detach {wt}").returncode == 0
     try:
         r = sh(f"git -C {wt} apply {patch}")
+        if r.returncode != 0:
+            # the tree has moved since the change was written: apply with fuzz and refresh patch.diff against the current HEAD
+            r2 = sh(f"cd {wt} && patch -p1 -F3 --no-backup-if-mismatch < {patch}")
+            if r2.returncode == 0:
+                sh(f"cd {wt} && find . -name '*.orig' -delete -o -name '*.rej' -delete")
+                patch.write_text(sh(f"git -C {wt} diff").stdout)
+                res["patch_refreshed"] = True
+                r = r2
         res["applies"] = r.returncode == 0
         if not res["applies"]:
-            res["apply_error"] = r.stderr[-300:]
+            res["apply_error"] = (r.stderr + r.stdout)[-300:]
             return res
         t = sh(f"cd {wt} && {PY} -m pytest -q -p no:cacheprovider --timeout=900 -x --deselect tests/test_fakes.py::test_get_result_batches "
                f"--deselect tests/test_fakes.py::test_get_result_batches_dict 2>&1 | tail -3")
